@@ -43,7 +43,7 @@ def CurInv (sec : Nat → Rat) (tr : Traj) (N : Nat) (s : Seg) : Prop :=
 
 /-- seeking from a state satisfying the invariant lands (up to caches) where seeking from the
 corresponding chain element lands, and the invariant is preserved -/
-theorem cseek_from_inv (sec : Nat → Rat) (tr : Traj) (N : Nat) (T : Tiling (trajCur sec tr) N)
+theorem cseek_from_inv (sec : Nat → Rat) (tr : Traj) (N : Nat) (T : Tiling0 (trajCur sec tr) N)
     (t : QTime) (ht : t.valid) (fuel : Nat) (hf : N + 2 ≤ fuel) (s : Seg) (j : Nat) (hj : j ≤ N)
     (hs : clearCache s = (trajCur sec tr).chain j) (hc : Coh s) :
     ∃ s' k, k ≤ N ∧ cseek (trajCur sec tr) t fuel s = some s' ∧
